@@ -272,6 +272,8 @@ def check(ctx):
         ctx.ob("C03.R4", ep, "extract_position reads model_state[key] (node name) first and "
                              "falls back to the value node of the variable of that name",
                ok, detail=str([short(v) for _, v, _ in sts]), stmt="extract order")
+        from .common import single_pass_obligation
+        single_pass_obligation(ctx, "C03.R4", ep, ep.params()[1], "LieselInterface.extract_position")
         lp = method(repo, ci, "log_prob", own=True)
         rl = evaluate(repo, lp).ret()
         ctx.ob("C03.R4", lp, "log_prob reads the value of the model's log-probability node "
@@ -307,12 +309,18 @@ def check(ctx):
         n_simple += 1
         ex = method(repo, ci, "extract_position", own=True)
         rt_e = strip_position(evaluate(repo, ex).ret())
+        if rt_e is not None:
+            # reading the keys from a materialised copy (list(keys)) is the same read
+            from ..core.terms import substitute
+            rt_e = substitute(rt_e, {("call", n(f_), (KEYS_,), ()): KEYS_ for f_ in ("list", "tuple")})
         ok_e = (rt_e is not None and rt_e[0] == "comp" and rt_e[1] == "dict"
                 and rt_e[2] == (each_key, read) and len(rt_e[3]) == 1
                 and rt_e[3][0][1] == KEYS_ and not rt_e[3][0][2])
         ctx.ob("C03.R6", ex, f"{cname}.extract_position = {{key: state's entry for key, for "
                              f"every requested key}}", ok_e, detail=short(rt_e or (), 160),
                stmt=f"{cname} extract")
+        from .common import single_pass_obligation
+        single_pass_obligation(ctx, "C03.R6", ex, ex.params()[1], f"{cname}.extract_position")
         up = method(repo, ci, "update_state", own=True)
         ru = evaluate(repo, up)
         rt_u = ru.ret()
